@@ -747,6 +747,13 @@ def flatten(self, *dims, **kwargs):
         # by default, position of the first listed axis among the dimensions that are kept
         insert = len([d for d in self.dims[:ii] if d not in dims])
 
+    # position among the dimensions that are kept, possibly counted from the end (like newaxis)
+    nkept = len(self.dims) - n
+    if insert < 0:
+        insert += nkept + 1
+    if not 0 <= insert <= nkept:
+        raise ValueError("insert position out of range: the grouped axis can be inserted at positions 0 to {}".format(nkept))
+
     # If dimensions do not follow each other, transpose first
     if dims != self.dims[insert:insert+len(dims)]:
 
